@@ -461,7 +461,16 @@ func (n *Net) invoke(owner, target uint64, method, arg string, fn func(t *rchord
 // Crash crash-stops a member: its tasks are stopped and it becomes unreachable.
 func (n *Net) Crash(m *Member) {
 	m.crashed.Store(true)
-	m.Stop()
+	// Stopping waits for the member's periodic tasks. One of them may be inside a call to a
+	// node whose locks a scenario keeps held on purpose (parked request): do not wait for
+	// ever - from the ring's point of view the node is gone as of now, its tasks end as soon
+	// as their current call returns.
+	done := make(chan struct{})
+	go func() { m.Stop(); close(done) }()
+	select {
+	case <-done:
+	case <-time.After(2 * time.Second):
+	}
 }
 
 // Stop force-stops the member's background tasks (teardown / crash).
